@@ -45,7 +45,8 @@ def _resolve_locale(
     elif isinstance(_locale, str):
         try:
             locale = Locale.parse(_locale)
-        except UnknownLocaleError:
+        except (UnknownLocaleError, ValueError):
+            # `Locale.parse` raises a plain ValueError for a malformed identifier.
             locale = default
     else:
         raise LiquidTypeError(
